@@ -150,11 +150,14 @@ func (c c03) Generate(e *Env) ([]*Case, error) {
 			}
 		}
 	}
-	// p4: a function obfuscated with trash blocks (control flow only).
-	for i := 0; i < k; i++ {
-		add("p4", "ctrlflow", c03Variant{RtSeed: fmt.Sprint(2 + rng.Intn(1<<30)), P: 1, Cache: "user-cold", Sched: SchedSpec{Kind: "canonical"}})
-	}
 	if thorough {
+		// p4: a function obfuscated with trash blocks. Trash statements call functions
+		// of packages the obfuscated package does not import, which garble can only
+		// resolve when those packages are compiled in the same go invocation — so p4
+		// builds from fully cold caches only (see DESIGN.md F11). One pair of fully
+		// cold builds under two runtime seeds, outside the gate.
+		cases = append(cases, &Case{Property: "C03", Kind: "coldpair", Seed: e.Seed,
+			Params: mustJSON(c03Params{Prog: "p4", Cfg: "ctrlflow", Tier: e.Tier, V: c03Variant{RtSeed: "1", Cache: "coldpair", P: 16}})})
 		for i := 0; i < 2; i++ {
 			add("p1", []string{"default", "literals"}[i], c03Variant{RtSeed: fmt.Sprint(7 + i), P: 16, Cache: "cold", Sched: SchedSpec{Kind: "canonical"}})
 		}
@@ -260,6 +263,39 @@ func (c c03) Run(e *Env, cs *Case) (*Outcome, error) {
 	o := &Outcome{Faults: map[string]int{}, Probes: map[string]int{}, Traces: map[string][]engine.Step{}}
 	o.Fingerprint = string(cs.Params)
 	o.NonTrivial = true
+	if p.V.Cache == "coldpair" {
+		// Two fully cold builds of the same inputs under different runtime seeds.
+		var shas []string
+		for _, seed := range []string{"1", "2"} {
+			w, err := world.New(e.Bin, "c03cold")
+			if err != nil {
+				return nil, err
+			}
+			w.RtSeed = seed
+			src, err := PrepareSource(w, p.Prog, p.Prog, nil)
+			if err != nil {
+				w.Close()
+				return nil, err
+			}
+			out := filepath.Join(w.Out, "bin")
+			_, se, code := w.RunPlain(src, cfg, "build", "-o", out, ".")
+			o.SimRuns++
+			o.Probes["fully-cold-build"]++
+			sha := world.HashFile(out)
+			w.Close()
+			if code != 0 {
+				o.Violation = &Violation{Class: "build-failed", Key: "build-failed/" + p.Prog + "/" + p.Cfg + "/cold", Detail: shortErr(se)}
+				return o, nil
+			}
+			shas = append(shas, sha)
+		}
+		o.Sample = map[string]any{"params": p, "shas": shas}
+		if shas[0] != shas[1] {
+			o.Violation = &Violation{Class: "binary-differs", Key: "binary-differs/" + p.Prog + "/" + p.Cfg + "/cold-pair",
+				Detail: fmt.Sprintf("%s under %s, two fully cold builds that differ only in the runtime seed (map iteration order): %.16s vs %.16s", p.Prog, p.Cfg, shas[0], shas[1])}
+		}
+		return o, nil
+	}
 	canon, cerr := c.canonical(e, p.Prog, p.Cfg, p.Tier)
 	if cerr != nil {
 		return nil, cerr
